@@ -11,6 +11,7 @@ import (
 	"go/parser"
 	"go/token"
 	"os"
+	"os/exec"
 	"path/filepath"
 	"strings"
 )
@@ -18,14 +19,40 @@ import (
 var redirect = map[string]bool{"Create": true, "OpenFile": true, "Open": true, "Mkdir": true, "MkdirAll": true,
 	"Rename": true, "Remove": true, "ReadFile": true, "ReadDir": true}
 
+// listSources: the non-test Go files of every package of this module that the main package depends on
+func listSources(repo string) ([]string, error) {
+	cmd := exec.Command("go", "list", "-deps", "-f", "{{if not .Standard}}{{.Dir}}|{{range .GoFiles}}{{.}},{{end}}{{end}}", ".")
+	cmd.Dir = repo
+	cmd.Env = append(os.Environ(), "GOFLAGS=-mod=mod", "GOPROXY=off", "GOSUMDB=off", "GOTOOLCHAIN=local")
+	out, err := cmd.Output()
+	if err != nil {
+		return nil, fmt.Errorf("go list: %v", err)
+	}
+	root, _ := filepath.Abs(repo)
+	var files []string
+	for _, line := range strings.Split(string(out), "\n") {
+		parts := strings.SplitN(line, "|", 2)
+		if len(parts) != 2 || (parts[0] != root && !strings.HasPrefix(parts[0], root+"/")) {
+			continue
+		}
+		for _, f := range strings.Split(parts[1], ",") {
+			if f != "" {
+				files = append(files, filepath.Join(parts[0], f))
+			}
+		}
+	}
+	return files, nil
+}
+
 func main() {
 	repo, out := os.Args[1], os.Args[2]
 	overlay := map[string]string{}
 	n := 0
-	filepath.Walk(repo, func(p string, info os.FileInfo, err error) error {
-		if err != nil || info.IsDir() || !strings.HasSuffix(p, ".go") || strings.HasSuffix(p, "_test.go") || strings.Contains(p, "/.git/") {
-			return nil
-		}
+	files, err := listSources(repo)
+	if err != nil {
+		panic(err)
+	}
+	for _, p := range files {
 		fset := token.NewFileSet()
 		f, err := parser.ParseFile(fset, p, nil, parser.ParseComments)
 		if err != nil {
@@ -43,7 +70,7 @@ func main() {
 			return true
 		})
 		if !changed {
-			return nil
+			continue
 		}
 		// add import
 		imp := &ast.ImportSpec{Path: &ast.BasicLit{Kind: token.STRING, Value: `"github.com/JunNishimura/Goit/internal/zvfs"`}}
@@ -64,8 +91,7 @@ func main() {
 		os.MkdirAll(filepath.Dir(dst), 0o755)
 		os.WriteFile(dst, []byte(src), 0o644)
 		overlay[p] = dst
-		return nil
-	})
+	}
 	vfsSrc, _ := filepath.Abs(filepath.Join(filepath.Dir(os.Args[0]), "..", "vfs", "vfs.go"))
 	if len(os.Args) > 3 {
 		vfsSrc = os.Args[3]
